@@ -470,12 +470,15 @@ class _ManifoldDynamicsService(_DynamicsServiceBase):
         if options is None:
             options = self.eigendecomposition_options
             
-        key = self.make_key(id(self.domain_obj), self._orbit_key(), tuple(sorted(options.to_dict().items())))
+        config = self.eigendecomposition_config
+        key = self.make_key(id(self.domain_obj), self._orbit_key(), config, tuple(sorted(options.to_dict().items())))
         
         def _factory() -> StabilityPipeline:
             _, _, phi_T, _ = self.compute_stm(steps=2000)
-            self.generator.compute(domain_obj=phi_T, options=options)
-            return self.generator
+            # one pipeline per key: a pipeline only holds the results of its last compute() call
+            pipeline = StabilityPipeline.with_default_engine(config=config)
+            pipeline.compute(domain_obj=phi_T, options=options)
+            return pipeline
         
         return self.get_or_create(key, _factory)
 
